@@ -228,14 +228,18 @@ def h_case(vm, mir, name):
 
 
 def noise_sym(vm, name):
+    """one symbolic ignorable character: any white space of ASCII ∪ R other than LF (incl. VT, NBSP, U+2028), or any ignorable punctuation that is not a token"""
     c = z3.BitVec(name, 32); vm.keep.append(c)
-    k = vm.fork(2, note=name + '.class')
-    if k == 0: vm.assume(z3.And(chartab.is_ascii_whitespace(c), c != 10))
-    else:
+    k = vm.fork(4, note=name + '.class')
+    w = 1
+    if k == 0: vm.assume(z3.And(chartab.is_whitespace(c), z3.ULT(c, 128), c != 10))
+    elif k == 1:
         dom = [ord(x) for x in '!#$%:;?@[\\]^`{|}~']
         vm.assume(z3.Or(*[c == v for v in dom])); vm.domains[c.get_id()] = set(dom)
+    elif k == 2: vm.assume(c == 0xA0); vm.domains[c.get_id()] = {0xA0}; w = 2
+    else: vm.assume(c == 0x2028); vm.domains[c.get_id()] = {0x2028}; w = 3
     if not hasattr(vm, 'cp_width'): vm.cp_width = {}
-    vm.cp_width[c.get_id()] = 1
+    vm.cp_width[c.get_id()] = w
     return c
 
 
@@ -266,7 +270,7 @@ def h_layout(vm, mir, name, kind):
             cps += [ord(ch) for ch in l]
             if i == li and kind == 'trailing': cps += [32, c]
             if i < len(lines) - 1: cps.append(10)
-        b = BStr(Buf(cps, [1 if not isinstance(x, int) else utf8_len(x) for x in cps]))
+        b = BStr(Buf(cps, [vm.cp_width.get(x.get_id(), 1) if not isinstance(x, int) else utf8_len(x) for x in cps]))
         d = lambda m: {'base': name, 'base_text': text0, 'text': ''.join(chr(x if isinstance(x, int) else m.eval(x, model_completion=True).as_long()) for x in cps), 'layout': kind}
     return judge_same(vm, mir, text0, b, d, 'layout-' + kind)
 
@@ -281,7 +285,7 @@ def h_noise(vm, mir, name, kind):
         if kind == 'char-glued': text = text.replace(' \x01 ', '\x01')
         c = noise_sym(vm, 'noise')
         cps = [c if ch == mark else ord(ch) for ch in text]
-        b = BStr(Buf(cps, [1 if not isinstance(x, int) else utf8_len(x) for x in cps]))
+        b = BStr(Buf(cps, [vm.cp_width.get(x.get_id(), 1) if not isinstance(x, int) else utf8_len(x) for x in cps]))
         d = lambda m: {'base': name, 'base_text': render(base), 'text': ''.join(chr(x if isinstance(x, int) else m.eval(x, model_completion=True).as_long()) for x in cps), 'inserted-at': [li, ii]}
     else:
         ins = {'comment': '(a comment)', 'two-comments': '(one) (two)', 'glued-comments': '(one)(two)', 'multi-line-comment': '(one\ntwo)'}[kind]
